@@ -17,7 +17,7 @@ def run(tier):
         'documented spelling of trans x alpha in {0, 2.5} x beta in {0, 1, 3} x incy in {1, -1} on a 7 x 11 matrix: accepted; lenx/leny = '
         '(ncol, nrow) for N/n and (nrow, ncol) otherwise; start of y for a negative stride; beta scaling over leny elements; alpha = 0 and '
         '(alpha = 0, beta = 1) short-cuts. R10: sp_?gemv writes only y, sp_?trsv only x/stat/info, sp_?gemm only c, ?gstrs only B\'s values/'
-        'stat/info (sound may-write sets). ?gstrs permutation roles and kernel order (as C01.D2). Kernel rules: after every accumulating dense call (?gemv_/?gemm_ with beta = 1, ?matvec) into the scratch vector of sp_?trsv / ?gstrs every path to the next such call or to the return passes a loop that zeroes it; every cursor advanced by a stride parameter in sp_?gemv is advanced unconditionally once per iteration. R9 siblings. Not decided: the computed '
+        'stat/info (sound may-write sets). ?gstrs permutation roles and kernel order (as C01.D2). Kernel rules: after every accumulating dense call (?gemv_/?gemm_ with beta = 1, ?matvec) into the scratch vector of sp_?trsv / ?gstrs every path to the next such call or to the return passes a loop that zeroes it; every cursor advanced by a stride parameter in sp_?gemv is advanced unconditionally once per iteration. The bundled kernels ?lsolve / ?matvec (used when no vendor BLAS is linked): the column pointers of each unrolled block start at M0 + j*ldm (+ j+1 for the triangular solve) and M0 advances by the block width, decided by linear-form evaluation of the pointer assignments. R9 siblings. Not decided: the computed '
         'values; independence of right-hand-side columns in the level-3 path.')
     cfgs = ['tested'] if tier == 'quick' else ['tested', 'cblas', 'idx64']
     chk.configs = cfgs
@@ -39,6 +39,10 @@ def run(tier):
             r10.maywrite(chk, 'C14.D2', prog, eff, p + 'gstrs', dict(ro, B=['->Store->nzval']), cfgname)
             c01.gstrs_oracle(chk, prog, eff, p, cfgname)
         kernels.run_basic(chk, 'C14.kern', prog, cfgname, ('trsv', 'gemv', 'solve'), floor_scratch=8 if cfgname != 'cblas' else 12, floor_cursor=18)
+        chk.clause('C14.kern.unrolled', 'column pointers of the bundled unrolled kernels start where the block layout puts them')
+        nu = sum(kernels.unrolled_kernel_rule(chk, 'C14.kern.unrolled', prog, p, cfgname) for p in _drv.PRECS)
+        if nu < 80:
+            raise AnalysisBroken('C14: %d column-pointer obligations in ?lsolve / ?matvec, floor 80' % nu)
         if n1 < 4 * 30 or n2 < 4 * 6:
             raise AnalysisBroken('C14: %d sp_?trsv leaves, %d sp_?gemv leaves' % (n1, n2))
         if cfgname == 'tested':
